@@ -12,6 +12,54 @@ import os
 from .common import REPO, AnalysisError, repo_path
 
 
+def _specialise_partialmethod(method: ast.FunctionDef, call: ast.Call, name: str):
+    """``name = partialmethod(method, c1, ..., k=c)`` in a class body, as a method of its own: ``method`` with its leading
+    parameters (after self) replaced by the constants.  None unless all bound arguments are constants and the method does
+    not rebind those parameters."""
+    import copy
+    a = method.args
+    bound_pos = call.args[1:]
+    if a.vararg or a.kwarg or method.decorator_list or any(not isinstance(x, ast.Constant) for x in bound_pos) \
+            or any(k.arg is None or not isinstance(k.value, ast.Constant) for k in call.keywords):
+        return None
+    params = [p.arg for p in a.posonlyargs + a.args]
+    if len(bound_pos) > len(params) - 1:
+        return None
+    env = {p_: v for p_, v in zip(params[1:], bound_pos)}
+    for k in call.keywords:
+        if k.arg not in params[1:] + [x.arg for x in a.kwonlyargs] or k.arg in env:
+            return None
+        env[k.arg] = k.value
+    if any(isinstance(n, ast.Name) and isinstance(n.ctx, (ast.Store, ast.Del)) and n.id in env for n in ast.walk(method)):
+        return None
+    made = copy.deepcopy(method)
+    made.name = name
+    ma = made.args
+    n_pos = len(ma.posonlyargs) + len(ma.args)
+    defaults = [None] * (n_pos - len(ma.defaults)) + list(ma.defaults)
+    keep = [i for i, p_ in enumerate(ma.posonlyargs + ma.args) if p_.arg not in env]
+    allp = ma.posonlyargs + ma.args
+    new_pos = [allp[i] for i in keep if i < len(ma.posonlyargs)]
+    new_args = [allp[i] for i in keep if i >= len(ma.posonlyargs)]
+    new_defaults = [defaults[i] for i in keep]
+    while new_defaults and new_defaults[0] is None:
+        new_defaults.pop(0)
+    if any(d is None for d in new_defaults):
+        return None
+    ma.posonlyargs, ma.args, ma.defaults = new_pos, new_args, new_defaults
+    kwo = [(p_, d) for p_, d in zip(ma.kwonlyargs, ma.kw_defaults) if p_.arg not in env]
+    ma.kwonlyargs, ma.kw_defaults = [x for x, _ in kwo], [d for _, d in kwo]
+
+    class Sub(ast.NodeTransformer):
+        def visit_Name(self, n):
+            if isinstance(n.ctx, ast.Load) and n.id in env:
+                return ast.copy_location(copy.deepcopy(env[n.id]), n)
+            return n
+    made.body = [Sub().visit(st) for st in made.body]
+    ast.fix_missing_locations(made)
+    return made
+
+
 def _specialise_factory(factory: ast.FunctionDef, call: ast.Call, name: str):
     """The function a factory returns for one call with constant arguments, as a definition of its own: the factory's inner
     ``def`` with the factory's parameters (and the locals computed from them before the ``def``) put in place.  None unless the
@@ -90,7 +138,7 @@ class FuncInfo:
         self.decorators = decos
         self.is_static = "staticmethod" in decos
         self.is_classmethod = "classmethod" in decos
-        self.is_property = "property" in decos
+        self.is_property = "property" in decos or "cached_property" in decos     # (that a remembered value is never stale is C15.memo's rule)
         self.is_overload = "overload" in decos
 
     @property
@@ -254,6 +302,9 @@ class PyFacts:
                         tree = ast.parse(src, filename=rel)
                     except SyntaxError as e:
                         raise AnalysisError(f"{rel} does not parse: {e}")
+                    if "contextmanager" in src:
+                        from .lowering import lower_contextmanagers
+                        tree = lower_contextmanagers(tree)
                     self.modules[name] = self._index(ModInfo(name, rel, tree, src))
 
     def _index(self, m: ModInfo) -> ModInfo:
@@ -287,6 +338,12 @@ class PyFacts:
         # methods made by a factory called in the class body: ``match_EOF = _token_rule('EOF', matches_eof=True)``
         for c in m.classes.values():
             for name, val in list(c.class_attrs.items()):
+                if name not in c.methods and isinstance(val, ast.Call) and getattr(val.func, "id", getattr(val.func, "attr", "")) == "partialmethod" \
+                        and val.args and isinstance(val.args[0], ast.Name) and val.args[0].id in c.methods:
+                    made = _specialise_partialmethod(c.methods[val.args[0].id].node, val, name)
+                    if made is not None:
+                        c.methods[name] = FuncInfo(m, c, made)
+                    continue
                 if name in c.methods or not (isinstance(val, ast.Call) and isinstance(val.func, ast.Name) and val.func.id in m.functions):
                     continue
                 made = _specialise_factory(m.functions[val.func.id].node, val, name)
